@@ -381,6 +381,9 @@ impl event::Subscriber for Sub {
             + (4 * event.rtt_variance.as_micros() as u64).max(1000)
             + event.max_ack_delay.as_micros() as u64;
         let mut s = self.sh.lock().unwrap();
+        if s.xmode == 1 {
+            s.xrow([5, self.ep as i128, 0, event.congestion_window as i128, event.smoothed_rtt.as_micros() as i128, now_us() as i128, 0, 0]);
+        }
         if s.xmode == 3 {
             s.xrow([
                 3,
@@ -2150,6 +2153,7 @@ fn e2e_inject(input: &[V]) -> Vec<V> {
 //   2 one range of an ACK frame this endpoint sends: a..=b
 //   3 the keys of the space were discarded
 //   4 the connection ended at this endpoint (closed, or CONNECTION_CLOSE sent)
+//   5 recovery metrics of this endpoint: a = congestion window, b = smoothed rtt (us)
 //   end_us = virtual time at which the recording stopped (end of the run, or the cap)
 
 fn e2e_pn(input: &[V]) -> Vec<V> {
